@@ -37,7 +37,11 @@ def s2_integral(gr: npt.NDArray, gr_bins: npt.NDArray, ndim: int = 3) -> float:
     Return:
         integral results to get S2 (float)
     """
-    y = gr * np.log(gr) - gr + 1
+    # g ln g -> 0 for g -> 0: bins where the smeared g(r) vanishes contribute the limit
+    glng = np.zeros_like(gr, dtype=np.float64)
+    positive = gr > 0
+    glng[positive] = gr[positive] * np.log(gr[positive])
+    y = glng - gr + 1
     y *= np.power(gr_bins, ndim - 1)
     trapezoid = getattr(np, "trapezoid", None) or np.trapz
     return trapezoid(y, gr_bins)
